@@ -18,6 +18,7 @@ LinesOK == {"alpha_x", "alpha_x_flag", "beta", "beta_gamma_y", "beta_gamma_y_num
 LinesTwo == {"alpha_x_flag", "beta_gamma_y_num"}
 LinesOne == {"alpha_x"}
 LinesAll == Lines
+LinesEight == {"alpha_x", "alpha_x_flag", "beta", "beta_gamma_y", "beta_gamma_y_num", "alpha_missing", "nosuch", "empty"}
 PresAll == {"none", "pass", "raise"}
 PresNone == {"none"}
 KindsAll == Kinds
